@@ -437,6 +437,12 @@ func (w *World) Exec(op string) error {
 			return err
 		})
 		w.note(op, err)
+	case "remelt": // Melt called again on an existing quote (e.g. a user retrying while the payment is in flight)
+		mi := atoi(arg(2))
+		if mi < len(ww.Melts) {
+			err := w.guard(op, func() error { _, e := ww.W.Melt(ww.Melts[mi].Quote); return e })
+			w.note(op, err)
+		}
 	case "lnfinal":
 		mi := atoi(arg(2))
 		if mi < len(ww.Melts) {
